@@ -493,57 +493,49 @@ fn file_case(report: &Report, rt: &tokio::runtime::Runtime, seed: u64, i: u64) {
     let nrows = expected.len();
     let max_page = if rng.chance(1, 3) { Some(*rng.pick(&[4096u64, 65536])) } else { None };
     let kinds_s = seq_name(&kinds);
-    let ctx = json!({"engine":"file","seed":seed,"case":i,"allvalid_list_with_def_levels":known_pre,"kinds":kinds_s,"structural":structural,"leaf_fsl":leaf_fsl,"rows":nrows,"garbage":use_garbage,"max_page_bytes":max_page});
-    let res: Result<(Vec<Vec<String>>, Vec<(String, Vec<u32>, Vec<Cell>)>), String> = crate::quiet::catch(|| rt.block_on(async {
-        let f = fileio::write_file(&batches, schema.clone(), LanceFileVersion::V2_1, max_page, &format!("c27-{i}")).await?;
-        let r = fileio::open(&f).await?;
-        let enc = fileio::page_encodings(&r);
-        let mut reads = vec![];
-        // full scan
-        let all = fileio::read_all(&r, *rng.pick(&[7u32, 100, 1024])).await?;
-        let got: Vec<Cell> = all.iter().flat_map(|b| cells(b.column(0).as_ref())).collect();
-        reads.push(("scan".to_string(), (0..nrows as u32).collect::<Vec<_>>(), got));
-        // random takes
-        for t in 0..4 {
-            let k = match t {
-                0 => 1,
-                1 => rng.urange(1, nrows.min(5)),
-                2 => rng.urange(1, nrows.min(64)),
-                _ => rng.urange(1, nrows),
-            };
-            let mut idx: Vec<u32> = rng.sample_indices(nrows, k).into_iter().map(|x| x as u32).collect();
-            idx.sort();
-            let out = fileio::take(&r, &idx, *rng.pick(&[3u32, 64, 4096])).await?;
-            let got: Vec<Cell> = out.iter().flat_map(|b| cells(b.column(0).as_ref())).collect();
-            reads.push((format!("take{t}"), idx, got));
-        }
-        Ok((enc, reads))
-    }))
-    .unwrap_or_else(|(m, l)| {
-        let (m, l) = crate::quiet::take_repo_panic().unwrap_or((m, l));
-        Err(format!("PANIC at {l}: {m}"))
+    let ctx = json!({"engine":"file","seed":seed,"case":i,"allvalid_list_with_def_levels":known_pre,"zero_leaf_items_with_child_validity":leaf_items == 0 && leaf_has_validity,"kinds":kinds_s,"structural":structural,"leaf_fsl":leaf_fsl,"rows":nrows,"garbage":use_garbage,"max_page_bytes":max_page});
+    type IoOut = Result<(Vec<Vec<String>>, Vec<(String, Vec<u32>, Vec<Cell>)>), String>;
+    let rng0 = rng.clone();
+    let res: IoOut = crate::quiet::run_attributed(|| {
+        let mut rng = rng0.clone();
+        rt.block_on(async {
+            let f = fileio::write_file(&batches, schema.clone(), LanceFileVersion::V2_1, max_page, &format!("c27-{i}")).await?;
+            let r = fileio::open(&f).await?;
+            let enc = fileio::page_encodings(&r);
+            let mut reads = vec![];
+            // full scan
+            let all = fileio::read_all(&r, *rng.pick(&[7u32, 100, 1024])).await?;
+            let got: Vec<Cell> = all.iter().flat_map(|b| cells(b.column(0).as_ref())).collect();
+            reads.push(("scan".to_string(), (0..nrows as u32).collect::<Vec<_>>(), got));
+            // random takes
+            for t in 0..4 {
+                let k = match t {
+                    0 => 1,
+                    1 => rng.urange(1, nrows.min(5)),
+                    2 => rng.urange(1, nrows.min(64)),
+                    _ => rng.urange(1, nrows),
+                };
+                let mut idx: Vec<u32> = rng.sample_indices(nrows, k).into_iter().map(|x| x as u32).collect();
+                idx.sort();
+                let out = fileio::take(&r, &idx, *rng.pick(&[3u32, 64, 4096])).await?;
+                let got: Vec<Cell> = out.iter().flat_map(|b| cells(b.column(0).as_ref())).collect();
+                reads.push((format!("take{t}"), idx, got));
+            }
+            Ok((enc, reads))
+        })
     });
-    let res = match res {
-        Err(e) if !e.contains("PANIC at ") => match crate::quiet::take_repo_panic() {
-            Some((m, l)) => Err(format!("{e}; PANIC at {l}: {m}")),
-            None => Err(e),
-        },
-        other => {
-            let _ = crate::quiet::take_repo_panic();
-            other
-        }
-    };
     match res {
+        Err(e) if e.contains("(not reproduced when re-run alone)") => {
+            report.case(None);
+            report.count("file_failures_not_reproduced_alone", 1);
+            report.inconclusive(&format!("C27 file case {i}: {e}"));
+        }
         Err(e) => {
             // a failure to write/read an accepted nested array is a refutation of "reproduces the same structure"
             report.case(None);
-            let cls = if let Some(p) = e.find("PANIC at ") { let l = &e[p + 9..]; format!("panic-{}", l.split(':').take(2).collect::<Vec<_>>().join(":").rsplit('/').next().unwrap_or("").to_string()) } else { format!("{kinds_s}-{structural}") };
-            let cls = if leaf_items == 0 && leaf_has_validity {
-                format!("zero-item-page-with-leaf-validity-{cls}")
-            } else if known_pre && !cls.starts_with("panic-primitive.rs") {
-                format!("allvalidlist-with-def-levels-{cls}")
-            } else {
-                cls
+            let cls = match crate::quiet::failure_class(&e) {
+                c if c == "other" => format!("{kinds_s}-{structural}"),
+                c => c,
             };
             report.violation(&format!("file-error-{cls}"), "lance-file write / read of a nested list column failed", {
                 let mut c = ctx.clone();
@@ -574,8 +566,7 @@ fn file_case(report: &Report, rt: &tokio::runtime::Runtime, seed: u64, i: u64) {
                     c["got"] = json!(got.get(pos).map(|c| c.render()));
                     c["n_expected"] = json!(want.len());
                     c["n_got"] = json!(got.len());
-                    let pre = if known_pre { "allvalidlist-with-def-levels-" } else { "" };
-                    report.violation(&format!("file-{pre}{kind}-{cls}-{layout}"), "random access / scan of a nested list column returned other items than the requested rows hold", c);
+                    report.violation(&format!("file-{kind}-{cls}-{layout}"), "random access / scan of a nested list column returned other items than the requested rows hold", c);
                     break;
                 }
             }
